@@ -25,6 +25,64 @@ QSBR_NOTE = ('Trusted: Coq 8.16.1 kernel, no axioms; theorems are about the coar
              'quiescent()/qsbr_pause().')
 
 claimed = {
+    'C13': ('proof', 'Coq theorems over the method table regenerated from mutex_art.hpp on every run (tools/shape2v.py): every index operation '
+            'takes the mutex, makes exactly one call into the wrapped index and releases on every path; in every interleaving the mutex '
+            'admits the calls into the wrapped index are totally ordered and disjoint (C13_atomic), the mutex stays held while a handle of '
+            'a successful get is outstanding and no thread enters the index before it is dropped (C13_handle_keeps_lock / C13_pinned); the '
+            'history validator is proved sound. Tie: the regenerated table must satisfy well_bracketed (kernel-checked), and a real '
+            'multi-thread stress of mutex_db (std::mutex, OS schedules) records histories that the verified validator must accept, '
+            'including values re-read through held handles.', '5 C13',
+            'Trusted: Coq 8.16.1 kernel, no axioms; std::mutex / unique_lock semantics (mutual exclusion, RAII release) assumed, not '
+            'verified; tools/shape2v.py (clang JSON AST -> method shapes); the wrapped db is covered by C01; OS schedules in the stress are '
+            'not controlled.', 'Coq proof over a method-shape model regenerated from the C++ AST + linearizability validation of recorded histories'),
+    'C17': ('proof', 'Coq theorems over the wrapper method table regenerated from qsbr_ptr.hpp/qsbr_ptr.cpp (assertion-enabled shapes): every '
+            'well-formed sequence of constructions, copies, moves, assignments, arithmetic, span operations and destructions computes '
+            'exactly what raw pointers compute (C17_raw), the registry is exactly the multiset of non-null addresses of live wrappers '
+            '(C17_registry), no operation gets stuck, and a quiescent state / pause / resume is accepted precisely when no non-null wrapper '
+            'is alive (C17_verdict). Tie: the regenerated table must be balanced (kernel-checked) and the extracted model is run against '
+            'the real wrappers (debug and NDEBUG builds, fork probes for the assertion verdicts) on generated operation sequences.', '5 C17',
+            'Trusted: Coq 8.16.1 kernel, no axioms; tools/shape2v.py; harness/ptr_diff.cpp; assertion failure observed as abort of a forked '
+            'child; unordered_multiset semantics modelled as a multiset.',
+            'Coq proof over a model regenerated from the C++ AST + differential correspondence'),
+    'C03': ('proof', 'PARTIAL proof, decided end to end by exploration. Proved in Coq (all traces, all lengths, any number of threads): the lock '
+            'layer (C07) lifted to every node of a trace accepted node by node (validated sections are snapshots, stores only under the '
+            'node\'s write guard or on a node its writer already marked obsolete), and soundness of the linearizability validator (an '
+            'accepted witness order is a sequential map execution consistent with real time). NOT a Coq theorem: that every interleaving of '
+            'try_get/try_insert/try_remove yields a linearizable history. That is decided on the implementation: olc_db run by 2-3 QSBR '
+            'threads under the deterministic scheduler, all schedules with at most one (quick) / two (thorough) preemptions per program plus '
+            'random schedules, on initial trees forcing every structural change; each execution\'s history goes through the verified '
+            'validator, each sampled event trace through the extracted acceptor. This exposed D3 (collapse prepends to the surviving '
+            'sibling\'s prefix without its lock: lost read), fixed by 0f504ae.', '5 C03',
+            'Trusted: Coq 8.16.1 kernel, no axioms; sequential consistency; hooks at every lock-word / protected-field access; dsched; the '
+            'search for a linearization is untrusted, its witness is checked by extracted lin_ok; schedules beyond the bound and programs '
+            'beyond the listed ones are not covered.',
+            'Coq proofs of lock layer + per-node trace acceptor + verified linearizability validator; bounded-preemption schedule exploration of the real index'),
+    'C04': ('proof', 'PARTIAL proof, decided end to end by exploration. Proved in Coq over the QSBR model (any history, any number of threads): '
+            'a block retired while thread u is registered is not freed before u\'s next quiescent state or exit (C04_view_stable: this is '
+            'what keeps a get/scan view readable), every retired block is pending or freed exactly once (C04_unlinked_freed_once), on top '
+            'of C05/C06. NOT a Coq theorem: that the tree code retires exactly the nodes it unlinks and never follows a pointer it has not '
+            're-validated. That is decided on the implementation for every explored schedule: any hooked access to a block after its free, '
+            'frees of reachable nodes, bytes behind every held value view re-read before the holder\'s quiescent state, and allocated == '
+            'reachable after the drain.', '5 C04',
+            'Trusted: as C03 and C05; leaf key/value bytes are plain memory (checked through the held-view re-read, not per access).',
+            'Coq proofs over the QSBR model + schedule exploration of the real index with a freed-block / held-view oracle'),
+    'C09': ('proof', 'PARTIAL proof, decided end to end by exploration. Proved in Coq: a scan that is a sequence of "least key >= bound at some '
+            'moment" queries with non-decreasing moments (the re-seek design of the OLC iterator) over ANY history of maps delivers strictly '
+            'increasing keys within the bound, each with a value held at the query moment, never a key absent throughout, and every key '
+            'present throughout (all five statements of the property, for all histories and scan lengths). NOT a Coq theorem: that the '
+            'iterator code realises such a sequence under every interleaving. That is decided on the implementation: scans (scan, '
+            'scan_from, scan_range, both directions) racing writers that restructure nodes on the scanner\'s stack, under the deterministic '
+            'scheduler; order, interval, value provenance and exactly-once delivery of untouched keys are checked per execution.', '5 C09',
+            'Trusted: as C03; reverse scans by symmetry (not restated in Coq); the per-execution scan checker is Python (tools/p_olc.py).',
+            'Coq proof of the abstract re-seek scan + schedule exploration of the real iterator'),
+    'C14': ('proof', 'PARTIAL proof, decided end to end by exploration. Proved in Coq: in every accepted trace at most one write guard per node, and a '
+            'thread holding any write guard takes no waiting step (so no wait-for cycle can contain a lock holder). NOT a Coq theorem: '
+            'termination of the restart loops under fair schedules. Decided on the implementation: the scheduler reports deadlock (all '
+            'unfinished threads spinning) or an exceeded step budget for every explored schedule, and after every execution a '
+            'single-threaded sweep (get of every key, insert+remove probes next to every key, full scan) must terminate; allocation-failure '
+            'points on the OLC index are covered by C08.', '5 C14',
+            'Trusted: as C03; fairness approximated by the scheduler\'s round-robin continuation after the preemption budget.',
+            'Coq proof (no wait while holding, single holder) + deadlock / step-budget detection under a deterministic scheduler + post-execution sweep'),
     'C08': ('proof', 'Coq theorems over the allocate-then-commit fault model: an insert / remove failing at any of its allocation points '
             'returns the untouched index and the retry gives the normal result; an operation has at most two allocation points, none when '
             'it is a no-op. The model\'s number of allocation points per operation is compared with the implementation, on which the '
@@ -112,7 +170,7 @@ for pid in sorted(claimed):
         'level_note': note,
         'technique': tech,
     })
-na = [{'property_id': p['id'], 'reason': 'check not built yet in this round (work in progress; see DESIGN.md section 9 for the order)'}
+na = [{'property_id': p['id'], 'reason': 'check not built yet (see DESIGN.md)'}
       for p in props if p['id'] not in claimed]
 hooks = subprocess.run(['git', '-C', '/repo', 'log', '--format=%h %s'], capture_output=True, text=True).stdout.splitlines()
 hook_commits = [l.split(' ')[0] for l in hooks if l.split(' ', 1)[1].startswith('verification hooks')]
